@@ -8,6 +8,25 @@ ROOT = os.path.dirname(os.path.dirname(os.path.abspath(__file__)))
 
 # id -> (category, technique, level text, level note, design ref)
 CHECKS = {
+    'C07': ('exploration',
+            'Hypothesis-generated programs that plant adversarial data and '
+            'read it back; oracle = independent strict RFC 3501 response '
+            'parser over the whole byte stream',
+            'Each case plants Unicode mailbox names, a message from the '
+            'header/MIME grammars, keywords, a tag over all legal tag bytes, ID '
+            'parameters and header-field names in every spelling, then runs '
+            '~45 commands that echo them (CREATE/LIST/LSUB/STATUS/SELECT/'
+            'RENAME, APPEND/FETCH of ENVELOPE, BODY, BODYSTRUCTURE, sections, '
+            'BINARY, STORE, SEARCH, COPY/MOVE, error paths). The complete '
+            'output is parsed by harness/wire.py (shares no code with '
+            'pymap.parsing): CRLF-terminated complete responses, known kinds, '
+            'tags that were sent, literal counts, quoted-string content, '
+            'balanced lists, envelope/body/status/list shapes. Sampled.',
+            'The oracle is my reading of RFC 3501 section 9 + extensions; '
+            '8-bit bytes in quoted strings and NUL inside plain literals are '
+            'not flagged (the statement does not list them); adversarial names '
+            'only on dict.',
+            'DESIGN.md section 3, C07'),
     'C06': ('exploration',
             'grammar-based + mutational + raw-byte fuzzing with Hypothesis at '
             'parser and wire level, generated messages read back with every '
